@@ -104,7 +104,8 @@ func checkCompositeLiteral(
 	}
 
 	// Check if we're in one of the allowed constructors
-	if constructors.Match(pkgPath, currentFunction, typeName) {
+	// (constructors are functions of the package that declares the type)
+	if pass.Pkg.Path() == pkgPath && constructors.Match(pkgPath, currentFunction, typeName) {
 		return nil
 	}
 
@@ -164,7 +165,8 @@ func checkNewCall(
 	}
 
 	// Check if we're in one of the allowed constructors
-	if constructors.Match(pkgPath, currentFunction, typeName) {
+	// (constructors are functions of the package that declares the type)
+	if pass.Pkg.Path() == pkgPath && constructors.Match(pkgPath, currentFunction, typeName) {
 		return nil
 	}
 
@@ -236,7 +238,8 @@ func checkVarDeclaration(
 			}
 
 			// Check if we're in one of the allowed constructors
-			if constructors.Match(pkgPath, currentFunction, typeName) {
+			// (constructors are functions of the package that declares the type)
+			if pass.Pkg.Path() == pkgPath && constructors.Match(pkgPath, currentFunction, typeName) {
 				continue
 			}
 
